@@ -905,7 +905,8 @@ theorem final_spec (hG : OK G) (T : Tab) (a : Nat) (ha : a ≤ 62) (hI : Inv G T
     ∀ i, i < G.nPos →
       (G.valid i = false → rd (finalize T) i = -1) ∧
       (G.valid i = true → G.takeK i = true → rd (finalize T) i = 64) ∧
-      (legalI G i → ∃ v, decodeS (rd (finalize T) i) = some v ∧ v = expected (gameI G) (valT (finalize T)) i) := by
+      (legalI G i → ∃ v, decodeS (rd (finalize T) i) = some v ∧ v = expected (gameI G) (valT (finalize T)) i) ∧
+      (-1 ≤ rd (finalize T) i ∧ rd (finalize T) i ≤ 126) := by
   have hsz : (finalize T).size = G.nPos := by unfold finalize; rw [Array.size_map, hI.size]
   have hrf : ∀ i, i < G.nPos → rd (finalize T) i = if rd T i < -3 then 0 else rd T i :=
     fun i hi => rd_finalize T i (by rw [hI.size]; exact hi)
@@ -934,11 +935,24 @@ theorem final_spec (hG : OK G) (T : Tab) (a : Nat) (ha : a ≤ 62) (hI : Inv G T
     · rw [vloss j k hj (by omega) e2] at e; injection e with e; subst e; exact ⟨e2, hk⟩
     · rw [vdraw j hj (Or.inl e2)] at e; cases e
     · rw [vdraw j hj (Or.inr (by omega))] at e; cases e
-  refine ⟨hsz, fun i hi => ⟨?_, ?_, ?_⟩⟩
+  refine ⟨hsz, fun i hi => ⟨?_, ?_, ?_, ?_⟩⟩
   · intro hv
     rw [hrf i hi, hI.inval i hi hv]; rfl
   · intro hv ht
     rw [hrf i hi, hI.take i hi hv ht]; rfl
+  rotate_left
+  · rw [hrf i hi]
+    by_cases hl : legalI G i
+    · rcases hI.shape i hl with ⟨k, hk1, hk, e⟩ | ⟨k, hk, e⟩ | e | ⟨c, hc, e⟩
+      · rw [e]; split <;> omega
+      · rw [e]; split <;> omega
+      · rw [e]; split <;> omega
+      · rw [e]; split <;> omega
+    · by_cases hv : G.valid i = true
+      · by_cases ht : G.takeK i = true
+        · rw [hI.take i hi hv ht]; split <;> omega
+        · exact absurd ⟨hi, hv, by simpa using ht⟩ hl
+      · rw [hI.inval i hi (by simpa using hv)]; split <;> omega
   · intro hl
     have hmoves : (gameI G).moves i = lm G i := rfl
     have hchk : (gameI G).inCheck i = inCheckI G i := rfl
@@ -1152,7 +1166,8 @@ theorem generate_spec (hG : OK G) (hp : (generate G).passes ≤ 63) :
       (G.valid i = false → rd (generate G).tab i = -1) ∧
       (G.valid i = true → G.takeK i = true → rd (generate G).tab i = 64) ∧
       (legalI G i → ∃ v, decodeS (rd (generate G).tab i) = some v ∧
-        v = expected (gameI G) (valT (generate G).tab) i) := by
+        v = expected (gameI G) (valT (generate G).tab) i) ∧
+      (-1 ≤ rd (generate G).tab i ∧ rd (generate G).tab i ≤ 126) := by
   have hfin := generate_finished hG.h64
   obtain ⟨h2, h2f⟩ := phase2_inv hG
   unfold generate at hfin hp ⊢
@@ -1171,10 +1186,10 @@ theorem generate_exact (hG : OK G) (hp : (generate G).passes ≤ 63) (i : Nat) (
   obtain ⟨_, hs⟩ := generate_spec hG hp
   have hfix : ∀ p, legalI G p → valT (generate G).tab p = expected (gameI G) (valT (generate G).tab) p := by
     intro p hpl
-    obtain ⟨v, hv, he⟩ := (hs p hpl.1).2.2 hpl
+    obtain ⟨v, hv, he⟩ := (hs p hpl.1).2.2.1 hpl
     rw [← he]; unfold valT; rw [hv]; rfl
   have hd := fixedpoint_is_dtm (gameI G) (legalI G) (legal_closed hG) (valT (generate G).tab) hfix i hi
-  obtain ⟨v, hv, he⟩ := (hs i hi.1).2.2 hi
+  obtain ⟨v, hv, he⟩ := (hs i hi.1).2.2.1 hi
   rw [hv, ← hd]; unfold valT; rw [hv]; rfl
 
 
